@@ -65,6 +65,29 @@ CHECKS = {
              "case as is / permuted / re-routed through clones / interleaved with a twin mock must give identical outcomes and verdicts, equal to the model.",
         design_ref="DESIGN.md section 7, C18",
         technique="Coq proof (permutation invariance of assembly, routing lemma) + paired-run co-execution"),
+    "C08": dict(
+        text="Machine-checked theorems (Props/C08.v): a call appends to the shared error list exactly the error it panics with (every Err of eval and the missing "
+             "real/default implementation of the generated body) and nothing otherwise, so user panics are not recorded; over any history through any instances the list "
+             "is exactly the mock-induced panics in order, caught or not; a non-empty list makes teardown of the original return exactly those errors whatever the counters, "
+             "the text being their renderings joined by newlines. Tied to /repo by co-executing histories with every error kind at random positions, on original or clone, on "
+             "the creator or another thread, mixed with user panics. Concurrent recording (several threads at once) is covered by C10's scheduler runs.",
+        design_ref="DESIGN.md section 7, C08",
+        technique="Coq proof (append-only error-log invariant over histories) + model/implementation co-execution"),
+    "C09": dict(
+        text="Machine-checked theorems (Props/C09.v): teardown of a non-original is silent in every state; clones are never original; verify()/no_verify_in_drop() on a clone "
+             "panic; the original's teardown is the ordered decision list unwinding > live clone > foreign thread > verdict; report() and verify()/drop map the same result; no "
+             "event sequence creates a second original, consuming events leave none, dead instances refuse every event (at most once); the strong count is the number of handles "
+             "(instances + delegation helpers + lent clones). Tied to /repo by co-executing life-cycle sequences (exhaustive short ones + random), events on other threads, with "
+             "Arc::strong_count observed after every step.",
+        design_ref="DESIGN.md section 7, C09",
+        technique="Coq proof (life-cycle invariants over all event sequences) + small-scope exhaustive and random co-execution"),
+    "C11": dict(
+        text="Machine-checked theorems (Props/C11.v): with std, dropping any instance while its thread unwinds never panics (any flags, expectations, clones, thread); a scope that owns "
+             "an instance and is left by a mock-induced or user panic reports exactly that one panic; after a caught panic the shared state is what the completed evaluation left. "
+             "Tied to /repo by running the whole crash matrix (panic origin x topology x met/unmet x owning-scope / unwinding-drop / caught) on the real crate; a double panic aborts "
+             "the harness process and is observed as a crash. The abort-on-double-panic rule itself is Rust runtime behaviour (modelled, not proved).",
+        design_ref="DESIGN.md section 7, C11",
+        technique="Coq proof (unwinding => silent drop, for all states) + exhaustive crash-matrix co-execution"),
 }
 
 NOT_YET = "check not built yet (work in progress in this session; designed in DESIGN.md section 7)"
